@@ -37,6 +37,12 @@ def models(tier):
         alpha += [("m", c, n) for n in ("rt:p:0:1", "rt:p:1:1", "rt:a:0:2", "rt:a:1:2")] + [("eof", c)]
     alpha += [("accept",), ("m", 1, "cer_p0"), ("tick", 1)]
     out.append(monitors.ScenarioModel("peer-reconnects", rc_cfg, alpha, MONS, max_socks=2, prelude=PRE))
+    # the end-to-end identifier 0 is an identifier like any other
+    z = copy.deepcopy(BASE)
+    z["node"]["retransmit_queue_size"] = 3
+    z["apps"][0]["behaviour"] = "answer"
+    out.append(monitors.ScenarioModel("end-to-end-identifier-zero", z, [("m", 0, n) for n in ("rt:a:0:1", "rz:a:1", "rz:a:0", "rt:a:1:1", "rz:b:1", "rt:b:0:2")],
+                                      MONS, max_socks=1, prelude=PRE))
     # an origin host whose name contains capital letters (next to a lower-case one)
     cap = copy.deepcopy(BASE)
     cap["node"]["retransmit_queue_size"] = 2
